@@ -180,6 +180,22 @@ def _single_exit(stmts, rv):
     return out, False
 
 
+def _bool_context(t):
+    """in a test only truthiness matters: `X if C else False` is `C and X`, `True if C else Y` is `C or Y` (also under not / and / or)"""
+    if isinstance(t, ast.UnaryOp) and isinstance(t.op, ast.Not):
+        t.operand = _bool_context(t.operand)
+        return t
+    if isinstance(t, ast.BoolOp):
+        t.values = [_bool_context(v) for v in t.values]
+        return t
+    if isinstance(t, ast.IfExp):
+        if isinstance(t.orelse, ast.Constant) and t.orelse.value is False:
+            return ast.copy_location(ast.BoolOp(op=ast.And(), values=[t.test, _bool_context(t.body)]), t)
+        if isinstance(t.body, ast.Constant) and t.body.value is True:
+            return ast.copy_location(ast.BoolOp(op=ast.Or(), values=[t.test, _bool_context(t.orelse)]), t)
+    return t
+
+
 class Inliner:
     def __init__(self, ix, table):
         self.ix = ix
@@ -410,6 +426,12 @@ class Inliner:
                     if r is not None and me.eligible(r[0]) and r[0].fq not in stack:
                         g, how = r
                         body = _body_without_doc(g.node)
+                        # `if C: return A` / `return B` (the loader nests it as if/else) is the expression `A if C else B`
+                        if len(body) == 1 and isinstance(body[0], ast.If) and len(body[0].body) == 1 and len(body[0].orelse) == 1 \
+                                and isinstance(body[0].body[0], ast.Return) and isinstance(body[0].orelse[0], ast.Return) \
+                                and body[0].body[0].value is not None and body[0].orelse[0].value is not None:
+                            i_ = body[0]
+                            body = [ast.Return(value=ast.IfExp(test=i_.test, body=i_.body[0].value, orelse=i_.orelse[0].value))]
                         if len(body) == 1 and isinstance(body[0], ast.Return) and body[0].value is not None:
                             m = me.bind(g, how, node)
                             if m is not None and all(isinstance(v, str) or _pure(v) for v in m.values()):
@@ -436,6 +458,8 @@ class Inliner:
                             break
                 return node
         T().visit(st)
+        if changed and isinstance(st, (ast.If, ast.While)):
+            st.test = _bool_context(st.test)
         return changed
 
 
